@@ -7,23 +7,31 @@ Open Scope Z_scope.
 Lemma tie_commands : Gen_registry.commands = ["query"; "register"; "unregister"]%string.
 Proof. reflexivity. Qed.
 Lemma tie_work_skeleton : skel_known Gen_registry.work_skeleton = true
-  /\ Gen_registry.cmd_lookup_guarded = skel_guarded Gen_registry.work_skeleton.
+  /\ Gen_registry.cmd_lookup_guarded = skel_guarded Gen_registry.work_skeleton
+  /\ Gen_registry.reply_dump_guarded = skel_reply_guarded Gen_registry.work_skeleton.
+Proof. repeat split; reflexivity. Qed.
+Lemma tie_register_skeleton : gskel_known Gen_registry.register_skeleton = true
+  /\ Gen_registry.register_validates_reply = gskel_validates Gen_registry.register_skeleton.
 Proof. split; reflexivity. Qed.
 Lemma tie_remove_skeleton : rskel_known Gen_registry.remove_skeleton = true
   /\ Gen_registry.remove_notifies_only_present = rskel_only_present Gen_registry.remove_skeleton.
 Proof. split; reflexivity. Qed.
 Lemma tie_tcp_recv_skeleton : tskel_known Gen_registry.tcp_recv_skeleton = true
-  /\ Gen_registry.tcp_accepted_timeout = tskel_timeout Gen_registry.tcp_recv_skeleton.
-Proof. split; reflexivity. Qed.
+  /\ Gen_registry.tcp_accepted_timeout = tskel_timeout Gen_registry.tcp_recv_skeleton
+  /\ Gen_registry.tcp_recv_closes_unanswered = tskel_sweeps Gen_registry.tcp_recv_skeleton.
+Proof. repeat split; reflexivity. Qed.
 Lemma tie_constants : Gen_registry.default_pruning = 240 /\ Gen_registry.max_dgram_size = 1500
-  /\ 0 < Gen_registry.udp_timeout_ms /\ 0 < Gen_registry.tcp_timeout_ms.
+  /\ 0 < Gen_registry.udp_timeout_ms /\ 0 < Gen_registry.tcp_timeout_ms /\ 0 < Gen_registry.tcp_client_timeout_ms.
 Proof. repeat split. Qed.
 
 (* the model parameters of the current tree *)
 Definition Fgen : facts :=
   {| lookup_guarded := Gen_registry.cmd_lookup_guarded;
      notify_only_present := Gen_registry.remove_notifies_only_present;
-     tcp_timeout := Gen_registry.tcp_accepted_timeout |}.
+     tcp_timeout := Gen_registry.tcp_accepted_timeout;
+     reply_guarded := Gen_registry.reply_dump_guarded;
+     register_validates := Gen_registry.register_validates_reply;
+     tcp_closes_unanswered := Gen_registry.tcp_recv_closes_unanswered |}.
 
 (* ---------- text ---------- *)
 Lemma text_eqb_eq a b : text_eqb a b = true <-> a = b.
@@ -146,12 +154,35 @@ Proof.
   destruct (eqb k0 k) eqn:E; cbn; auto.
   rewrite find_none_filter; auto. rewrite <- H1. apply find_congr. now rewrite eqb_sym.
 Qed.
+
+Lemma in_set_val k v k0 v0 (d : list (K * V)) : In (k0, v0) (d_set eqb k v d) -> In (k0, v0) d \/ v0 = v.
+Proof.
+  induction d as [|[k1 v1] r IH]; cbn.
+  - intros [[= <- <-]|[]]. now right.
+  - destruct (eqb k1 k); cbn.
+    + intros [[= <- <-]|H]; auto.
+    + intros [H|H]; auto. destruct (IH H); auto.
+Qed.
+Lemma in_set_key k v k0 v0 (d : list (K * V)) : In (k0, v0) (d_set eqb k v d) -> (exists v1, In (k0, v1) d) \/ k0 = k.
+Proof.
+  induction d as [|[k1 v1] r IH]; cbn.
+  - intros [[= <- <-]|[]]. now right.
+  - destruct (eqb k1 k); cbn.
+    + intros [[= <- <-]|H]; left; eauto.
+    + intros [[= <- <-]|H]; [left; eauto|]. destruct (IH H) as [[v2 H2]|H2]; [left; eauto|now right].
+Qed.
+Lemma in_pop k x (d : list (K * V)) : In x (d_pop eqb k d) -> In x d.
+Proof.
+  induction d as [|[k1 v1] r IH]; cbn; auto.
+  destruct (eqb k1 k); cbn; auto. intros [H|H]; auto.
+Qed.
 End DictP.
 
 Section ModelP.
 Variable upper lower : text -> text.
 Variable fso : list pyval -> list pyval.
 Variable keq : pyval -> pyval -> bool.
+Variable enc : pyval -> bool.
 Variable F : facts.
 Variable pruning : Z.
 Hypothesis keq_refl : forall a, keq a a = true.
@@ -784,16 +815,22 @@ Proof.
 Qed.
 
 (* ---------- 3'. nothing a client sends ends the loop ---------- *)
-Lemma classify_args_alive k al e : classify_args upper fso k al <> RDie e.
+Notation classify := (Registry.classify upper lower fso enc F).
+Notation work_val := (Registry.work_val upper lower fso keq enc F pruning).
+Notation deliver := (Registry.deliver enc F).
+Notation exec := (Registry.exec keq F pruning).
+
+Lemma classify_args_alive h k al e : classify_args upper fso enc F h k al <> RDie e.
 Proof.
   unfold classify_args.
   destruct k; destruct al as [|x [|y [|z al]]]; try discriminate; try (destruct x; discriminate).
-  destruct (py_iter fso x); [|discriminate]. destruct (texts_of l); discriminate.
+  destruct (py_iter fso x); [|discriminate]. destruct (texts_of l); [|discriminate].
+  destruct (accepted enc F h y); discriminate.
 Qed.
 
-Lemma classify_die v e : classify upper lower fso F v = RDie e -> lookup_guarded F = false.
+Lemma classify_die h v e : classify h v = RDie e -> lookup_guarded F = false.
 Proof.
-  unfold classify.
+  unfold Registry.classify.
   destruct (py_iter fso v) as [[|m [|c [|a [|x l]]]]|]; try discriminate.
   destruct (negb (is_text RPYC m)); [discriminate|].
   destruct c; try (destruct (lookup_guarded F); [discriminate|reflexivity]); try discriminate.
@@ -802,81 +839,246 @@ Proof.
   intros H. now apply classify_args_alive in H.
 Qed.
 
-Theorem loop_survives now h s v : lookup_guarded F = true ->
-  exists s' m rep, work_val upper lower fso keq F pruning now h s v = Next s' m rep.
+(* a register request that reaches the table was accepted *)
+Lemma classify_register_accepted h v ns p : classify h v = RRegister ns p -> accepted enc F h p = true.
 Proof.
-  intros G. unfold work_val.
-  destruct (classify upper lower fso F v) eqn:E; cbn [exec].
-  - eauto.
-  - apply classify_die in E. congruence.
-  - destruct (cmd_query keq F pruning now name s) as [[s' m] srv]. eauto.
-  - eauto.
-  - destruct (cmd_register keq now (h, port) names s) as [s' m]. eauto.
-  - destruct (cmd_unregister keq F (h, port) s) as [s' m]. eauto.
+  unfold Registry.classify.
+  destruct (py_iter fso v) as [[|m [|c [|a [|x l]]]]|]; try discriminate.
+  destruct (negb (is_text RPYC m)); [discriminate|].
+  destruct c; try (destruct (lookup_guarded F); discriminate); try discriminate.
+  destruct (find_cmd (lower cps)) as [k|]; [|discriminate].
+  destruct (py_iter fso a) as [al|]; [|discriminate].
+  unfold classify_args.
+  destruct k; destruct al as [|x1 [|y [|z al]]]; try discriminate; try (destruct x1; discriminate).
+  destruct (py_iter fso x1) as [l1|]; [|discriminate]. destruct (texts_of l1); [|discriminate].
+  destruct (accepted enc F h y) eqn:A; [|discriminate]. now intros [= _ <-].
 Qed.
 
-Theorem loop_survives_bytes P now h s dg : lookup_guarded F = true ->
-  forall e, work_step upper lower fso keq F pruning P now h s dg <> Some (Dead e).
+Lemma exec_dead now h r s e : exec now h r s = Dead e -> r = RDie e.
 Proof.
-  intros G e. unfold work_step. destruct (decode P dg) as [v|]; [|discriminate].
-  destruct (loop_survives now h s v G) as (s' & m & rep & ->). discriminate.
+  destruct r; cbn [Registry.exec]; try discriminate.
+  - now intros [= ->].
+  - destruct (cmd_query keq F pruning now name s) as [[s' m] srv]. discriminate.
+  - destruct (cmd_register keq now (h, port) names s) as [s' m]. discriminate.
+  - destruct (cmd_unregister keq F (h, port) s) as [s' m]. discriminate.
+Qed.
+
+Lemma deliver_alive o : reply_guarded F = true -> (forall e, o <> Dead e) ->
+  exists s' m rep, deliver o = Next s' m rep.
+Proof.
+  intros G H. destruct o as [s' m [v|]|e]; cbn [Registry.deliver]; eauto.
+  - destruct (enc v); eauto. rewrite G. eauto.
+  - now destruct (H e).
+Qed.
+
+Theorem loop_survives now h s v : lookup_guarded F = true -> reply_guarded F = true ->
+  exists s' m rep, work_val now h s v = Next s' m rep.
+Proof.
+  intros G RG. unfold Registry.work_val. apply deliver_alive; auto.
+  intros e H. apply exec_dead in H. apply classify_die in H. congruence.
+Qed.
+
+Theorem loop_survives_bytes P now h s dg : lookup_guarded F = true -> reply_guarded F = true ->
+  forall e, work_step upper lower fso keq enc F pruning P now h s dg <> Some (Dead e).
+Proof.
+  intros G RG e. unfold work_step. destruct (decode P dg) as [v|]; [|discriminate].
+  destruct (loop_survives now h s v G RG) as (s' & m & rep & ->). discriminate.
 Qed.
 
 Theorem loop_dies_unguarded now h s : lookup_guarded F = false ->
-  work_val upper lower fso keq F pruning now h s (PTuple [PStr RPYC; PInt 5; PTuple []]) = Dead AttributeError.
-Proof. intros G. unfold work_val, classify. cbn [py_iter]. change (is_text RPYC (PStr RPYC)) with true. cbn [negb]. now rewrite G. Qed.
+  work_val now h s (PTuple [PStr RPYC; PInt 5; PTuple []]) = Dead AttributeError.
+Proof.
+  intros G. unfold Registry.work_val, Registry.classify. cbn [py_iter].
+  change (is_text RPYC (PStr RPYC)) with true. cbn [negb]. now rewrite G.
+Qed.
+
+(* the reply is encoded after the command ran: where that is not guarded, a reply that cannot be
+   encoded ends the loop with the command's effects (pruning) already applied *)
+Theorem reply_dies_unguarded now h s v s' m rep : reply_guarded F = false ->
+  exec now h (classify h v) s = Next s' m (Some rep) -> enc rep = false ->
+  work_val now h s v = Dead OtherError.
+Proof. intros G E H. unfold Registry.work_val. rewrite E. cbn [Registry.deliver]. now rewrite H, G. Qed.
 
 (* the shapes of malformed requests the property lists: each is dropped, table and log untouched *)
-Lemma malformed_dropped now h s v : classify upper lower fso F v = RNone ->
-  work_val upper lower fso keq F pruning now h s v = Next s [] None.
-Proof. intros E. unfold work_val. now rewrite E. Qed.
+Lemma malformed_dropped now h s v : classify h v = RNone -> work_val now h s v = Next s [] None.
+Proof. intros E. unfold Registry.work_val. now rewrite E. Qed.
 
-Lemma classify_not_iterable v : py_iter fso v = None -> classify upper lower fso F v = RNone.
-Proof. intros E. unfold classify. now rewrite E. Qed.
-Lemma classify_wrong_length v l : py_iter fso v = Some l -> List.length l <> 3%nat ->
-  classify upper lower fso F v = RNone.
+Lemma classify_not_iterable h v : py_iter fso v = None -> classify h v = RNone.
+Proof. intros E. unfold Registry.classify. now rewrite E. Qed.
+Lemma classify_wrong_length h v l : py_iter fso v = Some l -> List.length l <> 3%nat -> classify h v = RNone.
 Proof.
-  intros E H. unfold classify. rewrite E.
+  intros E H. unfold Registry.classify. rewrite E.
   destruct l as [|m [|c [|a [|x l]]]]; auto. now cbn in H.
 Qed.
 Lemma magic_ok : is_text RPYC (PStr RPYC) = true.
 Proof. reflexivity. Qed.
-Ltac open_classify := unfold classify; cbn [py_iter]; rewrite ?magic_ok; cbn [negb].
+Ltac open_classify := unfold Registry.classify; cbn [py_iter]; rewrite ?magic_ok; cbn [negb].
 
-Lemma classify_wrong_magic m c a : is_text RPYC m = false -> classify upper lower fso F (PTuple [m; c; a]) = RNone.
+Lemma classify_wrong_magic h m c a : is_text RPYC m = false -> classify h (PTuple [m; c; a]) = RNone.
 Proof. intros E. open_classify. now rewrite E. Qed.
-Lemma classify_unknown_command c a : find_cmd (lower c) = None ->
-  classify upper lower fso F (PTuple [PStr RPYC; PStr c; a]) = RNone.
+Lemma classify_unknown_command h c a : find_cmd (lower c) = None ->
+  classify h (PTuple [PStr RPYC; PStr c; a]) = RNone.
 Proof. intros E. open_classify. now rewrite E. Qed.
-Lemma classify_nontext_command c a : lookup_guarded F = true -> (forall t, c <> PStr t) ->
-  classify upper lower fso F (PTuple [PStr RPYC; c; a]) = RNone.
+Lemma classify_nontext_command h c a : lookup_guarded F = true -> (forall t, c <> PStr t) ->
+  classify h (PTuple [PStr RPYC; c; a]) = RNone.
 Proof. intros G H. open_classify. destruct c; try reflexivity; try (now rewrite G). exfalso. eapply H. reflexivity. Qed.
-Lemma classify_args_not_iterable c a : py_iter fso a = None ->
-  classify upper lower fso F (PTuple [PStr RPYC; PStr c; a]) = RNone.
+Lemma classify_args_not_iterable h c a : py_iter fso a = None ->
+  classify h (PTuple [PStr RPYC; PStr c; a]) = RNone.
 Proof. intros E. open_classify. rewrite E. now destruct (find_cmd (lower c)). Qed.
-Lemma classify_wrong_arg_count c k a al : find_cmd (lower c) = Some k -> py_iter fso a = Some al ->
+Lemma classify_wrong_arg_count h c k a al : find_cmd (lower c) = Some k -> py_iter fso a = Some al ->
   List.length al <> (match k with CRegister => 2 | _ => 1 end)%nat ->
-  classify upper lower fso F (PTuple [PStr RPYC; PStr c; a]) = RNone.
+  classify h (PTuple [PStr RPYC; PStr c; a]) = RNone.
 Proof.
   intros E1 E2 H. open_classify. rewrite E1, E2. unfold classify_args.
   destruct k; destruct al as [|x [|y [|z al]]]; auto; try (now cbn in H); now destruct x.
 Qed.
 
 (* case-insensitivity: names meet the table only through [upper] *)
-Lemma classify_query_upper c n : find_cmd (lower c) = Some CQuery ->
-  classify upper lower fso F (PTuple [PStr RPYC; PStr c; PTuple [PStr n]]) = RQuery (upper n).
+Lemma classify_query_upper h c n : find_cmd (lower c) = Some CQuery ->
+  classify h (PTuple [PStr RPYC; PStr c; PTuple [PStr n]]) = RQuery (upper n).
 Proof. intros E. open_classify. now rewrite E. Qed.
 Lemma texts_of_strs ns : texts_of (map PStr ns) = Some ns.
 Proof. induction ns as [|x r IH]; cbn; [auto|now rewrite IH]. Qed.
-Lemma classify_register_upper c ns p : find_cmd (lower c) = Some CRegister ->
-  classify upper lower fso F (PTuple [PStr RPYC; PStr c; PTuple [PTuple (map PStr ns); p]]) = RRegister (map upper ns) p.
-Proof. intros E. open_classify. rewrite E. cbn [classify_args py_iter]. now rewrite texts_of_strs. Qed.
-Lemma classify_unregister c p : find_cmd (lower c) = Some CUnregister ->
-  classify upper lower fso F (PTuple [PStr RPYC; PStr c; PTuple [p]]) = RUnregister p.
+Lemma classify_register_upper h c ns p : find_cmd (lower c) = Some CRegister -> accepted enc F h p = true ->
+  classify h (PTuple [PStr RPYC; PStr c; PTuple [PTuple (map PStr ns); p]]) = RRegister (map upper ns) p.
+Proof. intros E A. open_classify. rewrite E. cbn [classify_args py_iter]. now rewrite texts_of_strs, A. Qed.
+Lemma classify_register_refused h c ns p : find_cmd (lower c) = Some CRegister -> accepted enc F h p = false ->
+  classify h (PTuple [PStr RPYC; PStr c; PTuple [PTuple (map PStr ns); p]]) = RNone.
+Proof. intros E A. open_classify. rewrite E. cbn [classify_args py_iter]. now rewrite texts_of_strs, A. Qed.
+Lemma classify_unregister h c p : find_cmd (lower c) = Some CUnregister ->
+  classify h (PTuple [PStr RPYC; PStr c; PTuple [p]]) = RUnregister p.
 Proof. intros E. open_classify. now rewrite E. Qed.
 
-(* ---------- 4. TCP: silent clients are invisible when the accepted socket has a timeout ---------- *)
-Notation tcp_run := (Registry.tcp_run upper lower fso keq F pruning).
+(* ---------- 1''. every key of the table is the address of an accepted register request; on a tree that
+   validates at registration every query answer can be encoded, i.e. is delivered ---------- *)
+Definition keys_ok (P : addr -> Prop) (s : services) : Prop :=
+  forall n tb a t, In (n, tb) s -> In (a, t) tb -> P a.
+Definition regs_ok (P : addr -> Prop) (rh : list event) : Prop :=
+  Forall (fun ev : event => match ev with (_, h, RRegister _ p) => P (h, p) | _ => True end) rh.
+
+Lemma keys_ok_add (P : addr -> Prop) now n a s : P a -> keys_ok P s -> keys_ok P (fst (add_service keq now n a s)).
+Proof.
+  intros Pa K n' tb' a' t'. unfold add_service. cbn [fst]. intros H1 H2.
+  apply in_set_val in H1 as [H1| ->]; [eapply K; eauto|].
+  apply in_set_key in H2 as [[t1 H2]| ->]; auto.
+  destruct (d_find text_eqb n s) as [tb|] eqn:E; [|destruct H2].
+  apply find_some in E as (n0 & E & _). eapply K; eauto.
+Qed.
+Lemma keys_ok_remove (P : addr -> Prop) n a s : keys_ok P s -> keys_ok P (fst (remove_service keq F n a s)).
+Proof.
+  intros K. unfold remove_service. destruct (d_find text_eqb n s) as [tb|] eqn:E; cbn [fst]; auto.
+  apply find_some in E as (n0 & E & _).
+  intros n' tb' a' t' H1 H2. destruct (d_pop aeq a tb) as [|x tb1] eqn:EP.
+  - apply in_pop in H1. eapply K; eauto.
+  - apply in_set_val in H1 as [H1| ->]; [eapply K; eauto|].
+    rewrite <- EP in H2. apply in_pop in H2. eapply K; eauto.
+Qed.
+Lemma keys_ok_register (P : addr -> Prop) now a ns : P a -> forall s, keys_ok P s -> keys_ok P (fst (cmd_register keq now a ns s)).
+Proof.
+  intros Pa. induction ns as [|n r IH]; intros s K; cbn [cmd_register]; auto.
+  pose proof (keys_ok_add P now n a s Pa K) as K1.
+  destruct (add_service keq now n a s) as [s1 m1]. cbn [fst] in *.
+  specialize (IH s1 K1). now destruct (cmd_register keq now a r s1) as [s2 m2].
+Qed.
+Lemma keys_ok_remove_all (P : addr -> Prop) a ns : forall s, keys_ok P s -> keys_ok P (fst (remove_all keq F a ns s)).
+Proof.
+  induction ns as [|n r IH]; intros s K; cbn [remove_all]; auto.
+  pose proof (keys_ok_remove P n a s K) as K1.
+  destruct (remove_service keq F n a s) as [s1 m1]. cbn [fst] in *.
+  specialize (IH s1 K1). now destruct (remove_all keq F a r s1) as [s2 m2].
+Qed.
+Lemma keys_ok_prune (P : addr -> Prop) oldest n l : forall s, keys_ok P s -> keys_ok P (fst (fst (prune keq F oldest n l s))).
+Proof.
+  induction l as [|[a t] r IH]; intros s K; cbn [prune]; auto.
+  destruct (t <? oldest).
+  - pose proof (keys_ok_remove P n a s K) as K1.
+    destruct (remove_service keq F n a s) as [s1 m1]. cbn [fst] in *.
+    specialize (IH s1 K1). now destruct (prune keq F oldest n r s1) as [[s2 m2] srv].
+  - specialize (IH s K). now destruct (prune keq F oldest n r s) as [[s2 m2] srv].
+Qed.
+Lemma keys_ok_state_after (P : addr -> Prop) rh : regs_ok P rh -> keys_ok P (state_after rh).
+Proof.
+  induction 1 as [|[[now h] r] older Hev Hold IH]; cbn [Registry.state_after].
+  - intros n tb a t [].
+  - rewrite next_exec. destruct r; auto.
+    + unfold cmd_query. destruct (d_find text_eqb name (state_after older)); auto. now apply keys_ok_prune.
+    + now apply keys_ok_register.
+    + now apply keys_ok_remove_all.
+Qed.
+Lemma query_servers_in_table now n s a : In a (snd (cmd_query keq F pruning now n s)) ->
+  exists n0 tb t, In (n0, tb) s /\ In (a, t) tb.
+Proof.
+  unfold cmd_query. destruct (d_find text_eqb n s) as [tb|] eqn:E; cbn [snd]; [|intros []].
+  rewrite prune_servers. intros H. apply in_map_iff in H as ([a' t] & <- & H).
+  apply filter_In in H as [H _]. apply find_some in E as (n0 & E & _).
+  exists n0, tb, t. split; auto. eapply Permutation_in; [apply sort_perm|exact H].
+Qed.
+
+Definition enc_tuple_ok : Prop := forall l, enc (PTuple l) = forallb (fun x => enc (PTuple [x])) l.
+Definition answerable (a : addr) : Prop := enc (PTuple [addr_val a]) = true.
+
+Theorem query_delivered rh now h N : enc_tuple_ok -> regs_ok answerable rh ->
+  deliver (exec now h (RQuery N) (state_after rh)) = exec now h (RQuery N) (state_after rh).
+Proof.
+  intros ET RO. rewrite exec_query. cbn [Registry.deliver].
+  assert (E : enc (PTuple (map addr_val (snd (cmd_query keq F pruning now N (state_after rh))))) = true).
+  { rewrite ET. apply forallb_forall. intros x Hx. apply in_map_iff in Hx as (a & <- & Ha).
+    apply query_servers_in_table in Ha as (n0 & tb & t & H1 & H2).
+    exact (keys_ok_state_after answerable rh RO _ _ _ _ H1 H2). }
+  now rewrite E.
+Qed.
+
+Lemma accepted_answerable h p : register_validates F = true -> accepted enc F h p = true -> answerable (h, p).
+Proof. intros V. unfold accepted, answerable. now rewrite V. Qed.
+
+(* ---------- 2''. the whole log: its balance is table membership, which lags behind the
+   freshness-based membership of the property only by expiries not yet noticed ---------- *)
+Definition notes_of (o : outcome) : list note := match o with Next _ m _ => m | Dead _ => [] end.
+Fixpoint log_after (rh : list event) : list note :=
+  match rh with
+  | [] => []
+  | (now, h, r) :: older => log_after older ++ notes_of (exec now h r (state_after older))
+  end.
+
+Theorem log_balance rh N b : notify_only_present F = true ->
+  count true N b (log_after rh) = (count false N b (log_after rh) + ind (member N b (state_after rh)))%nat.
+Proof.
+  intros HF. induction rh as [|[[now h] r] older IH]; cbn [log_after Registry.state_after]; auto.
+  rewrite !count_app, IH.
+  pose proof (notes_exact now h r (state_after older) N b HF (wf_state_after older)) as H.
+  destruct (exec now h r (state_after older)) as [s' m rep|e]; cbn [notes_of next_state].
+  - destruct H as [-> ->]. destruct (member N b (state_after older)), (member N b s'); cbn; lia.
+  - cbn. lia.
+Qed.
+
+Theorem member_vs_live rh N b : mono rh ->
+  (forall t, live rh N b = Some t -> ~ stale_at rh t -> member N b (state_after rh) = true)
+  /\ (live rh N b = None -> member N b (state_after rh) = false)
+  /\ (member N b (state_after rh) = true -> exists t, live rh N b = Some t).
+Proof.
+  intros M. destruct (inv_state_after rh M) as (W & I2 & I3). unfold Registry.member. repeat split.
+  - intros t L NS. destruct (I3 _ _ _ L) as [->|[_ S]]; [reflexivity|contradiction].
+  - intros L. destruct (lookup N b (state_after rh)) as [t|] eqn:E; auto.
+    apply I2 in E. congruence.
+  - destruct (lookup N b (state_after rh)) as [t|] eqn:E; [|discriminate]. intros _. eauto.
+Qed.
+
+Theorem member_after_query rh now h N b : mono rh -> clock_le rh now ->
+  member N b (state_after ((now, h, RQuery N) :: rh)) = true
+  <-> exists t, live rh N b = Some t /\ now - pruning <= t.
+Proof.
+  intros M C. destruct (inv_state_after rh M) as (W & I2 & I3).
+  cbn [Registry.state_after]. rewrite next_exec. unfold Registry.member. rewrite lookup_query by auto.
+  rewrite text_eqb_refl. cbn [andb]. split.
+  - destruct (lookup N b (state_after rh)) as [t|] eqn:E; [|discriminate].
+    destruct (Z.ltb_spec t (now - pruning)); [discriminate|]. intros _. exists t. split; auto.
+  - intros (t & L & Fr). destruct (I3 _ _ _ L) as [->|[_ S]].
+    + destruct (Z.ltb_spec t (now - pruning)); [lia|reflexivity].
+    + exfalso. clear - S C Fr. destruct rh as [|[[t0 h0] r0] o]; cbn in S, C; [auto|lia].
+Qed.
+
+(* ---------- 4. TCP ---------- *)
+Notation tcp_run := (Registry.tcp_run upper lower fso keq enc F pruning).
 
 Lemma results_of_starved cs :
   results_of_sends cs (map (fun _ => TStarved) cs) = map (fun _ => TStarved) (sends_of cs).
@@ -884,28 +1086,70 @@ Proof.
   induction cs as [|[[now h] [|v]] r IH]; cbn; auto. now rewrite IH.
 Qed.
 
-Theorem tcp_silent_invisible cs : tcp_timeout F = true -> forall s,
-  results_of_sends cs (tcp_run s cs) = tcp_run s (sends_of cs).
+Lemma tcp_run_sweep_idem fdmax p s cs :
+  tcp_run fdmax (if tcp_closes_unanswered F then O else p) s cs = tcp_run fdmax p s cs.
+Proof. destruct cs as [|[[now h] c] r]; cbn [Registry.tcp_run]; auto. now destruct (tcp_closes_unanswered F). Qed.
+
+Lemma tcp_run_starved_head fdmax p s cs :
+  Nat.leb fdmax (if tcp_closes_unanswered F then O else p) = true ->
+  tcp_run fdmax p s cs = map (fun _ => TStarved) cs.
+Proof. intros H. destruct cs as [|[[now h] c] r]; cbn [Registry.tcp_run]; auto. now rewrite H. Qed.
+
+Theorem tcp_silent_invisible fdmax cs : tcp_timeout F = true -> forall p s,
+  results_of_sends cs (tcp_run fdmax p s cs) = tcp_run fdmax p s (sends_of cs).
 Proof.
-  intros HT. induction cs as [|[[now h] [|v]] r IH]; intros s; cbn [Registry.tcp_run sends_of results_of_sends]; auto.
-  - rewrite HT. cbn [results_of_sends]. apply IH.
-  - destruct (work_val upper lower fso keq F pruning now h s v) as [s' m rep|e]; cbn [results_of_sends].
-    + now rewrite IH.
-    + now rewrite results_of_starved.
+  intros HT. induction cs as [|[[now h] c] r IH]; intros p s; [reflexivity|].
+  destruct (Nat.leb fdmax (if tcp_closes_unanswered F then O else p)) eqn:L.
+  - rewrite !tcp_run_starved_head by auto. apply results_of_starved.
+  - destruct c as [|v]; cbn [Registry.tcp_run sends_of]; rewrite L.
+    + rewrite HT. cbn [results_of_sends]. rewrite IH. apply tcp_run_sweep_idem.
+    + destruct (Registry.work_val upper lower fso keq enc F pruning now h s v) as [s' m rep|e]; cbn [results_of_sends].
+      * now rewrite IH.
+      * now rewrite results_of_starved.
 Qed.
 
-Theorem tcp_nobody_starves cs : tcp_timeout F = true -> lookup_guarded F = true -> forall s,
-  ~ In TStarved (tcp_run s cs).
+Theorem tcp_nobody_starves fdmax cs : tcp_timeout F = true -> lookup_guarded F = true -> reply_guarded F = true ->
+  tcp_closes_unanswered F = true -> (1 <= fdmax)%nat -> forall p s, ~ In TStarved (tcp_run fdmax p s cs).
 Proof.
-  intros HT G. induction cs as [|[[now h] [|v]] r IH]; intros s; cbn [Registry.tcp_run]; auto.
-  - rewrite HT. intros [H|H]; [discriminate|now apply IH in H].
-  - destruct (loop_survives now h s v G) as (s' & m & rep & ->).
-    intros [H|H]; [discriminate|now apply IH in H].
+  intros HT G RG CL FD. induction cs as [|[[now h] c] r IH]; intros p s; cbn [Registry.tcp_run]; auto.
+  rewrite CL. destruct (Nat.leb_spec fdmax 0); [lia|].
+  destruct c as [|v].
+  - rewrite HT. intros [H1|H1]; [discriminate|now apply IH in H1].
+  - destruct (loop_survives now h s v G RG) as (s' & m & rep & ->).
+    intros [H1|H1]; [discriminate|now apply IH in H1].
 Qed.
 
-Theorem tcp_silent_starves now h now' h' v s : tcp_timeout F = false ->
-  tcp_run s [(now, h, Silent); (now', h', Sends v)] = [TStarved; TStarved].
-Proof. intros HT. cbn. now rewrite HT. Qed.
+Theorem tcp_silent_starves fdmax now h now' h' v s : tcp_timeout F = false ->
+  tcp_run fdmax O s [(now, h, Silent); (now', h', Sends v)] = [TStarved; TStarved].
+Proof.
+  intros HT. cbn [Registry.tcp_run]. rewrite HT.
+  destruct (tcp_closes_unanswered F); destruct (Nat.leb fdmax 0); reflexivity.
+Qed.
+
+(* requests that get no reply leave their socket open: after [fdmax] of them nobody is accepted *)
+Theorem tcp_leak_starves fdmax now h bad c : tcp_closes_unanswered F = false ->
+  (forall s, work_val now h s bad = Next s [] None) ->
+  forall k p s, (p + k = fdmax)%nat ->
+  tcp_run fdmax p s (repeat (now, h, Sends bad) k ++ [c]) = repeat (TReached None) k ++ [TStarved].
+Proof.
+  intros CL B. induction k as [|k IH]; intros p s E; cbn [repeat app].
+  - destruct c as [[now' h'] c]. cbn [Registry.tcp_run]. rewrite CL.
+    destruct (Nat.leb_spec fdmax p); [reflexivity|lia].
+  - cbn [Registry.tcp_run]. rewrite CL. destruct (Nat.leb_spec fdmax p); [lia|].
+    rewrite B. cbn [no_reply]. f_equal. apply IH. lia.
+Qed.
+
+(* every silent client ahead in the queue costs the server's timeout *)
+Fixpoint silent_before (cs : list client) (i : nat) : nat :=
+  match cs, i with
+  | Silent :: r, S j => S (silent_before r j)
+  | _ :: r, S j => silent_before r j
+  | _, _ => O
+  end.
+Lemma reached_at_silent T cs : forall i, reached_at_ms T cs i = T * Z.of_nat (silent_before cs i).
+Proof.
+  induction cs as [|[|v] r IH]; intros [|j]; cbn [reached_at_ms silent_before]; rewrite ?IH; lia.
+Qed.
 End ModelP.
 
 (* ---------- the extracted instance: structural equality is an equivalence ---------- *)
@@ -993,7 +1237,7 @@ Proof. intros H1 H2. apply pyval_eqb_eq in H1. now subst. Qed.
 Definition witness_numeric_command : list byte := [x12; x08; x0d; x52; x50; x59; x43; x55; x02].  (* brine.dump(("RPYC", 5, ())) *)
 
 Lemma loop_dies_bytes F pr P now h s : lookup_guarded F = false ->
-  work_step ascii_upper ascii_lower fso_id pyval_eqb F pr P now h s witness_numeric_command = Some (Dead AttributeError).
+  work_step ascii_upper ascii_lower fso_id pyval_eqb enc_all F pr P now h s witness_numeric_command = Some (Dead AttributeError).
 Proof.
   intros G. unfold work_step.
   assert (E : decode P witness_numeric_command = Some (PTuple [PStr RPYC; PInt 5; PTuple []])).
@@ -1013,7 +1257,7 @@ Lemma spurious_removed F pr : notify_only_present F = false ->
     /\ member pyval_eqb (T "FOO") (h1, PInt 999) s' = false
     /\ count pyval_eqb false (T "FOO") (h1, PInt 999) m = 1%nat.
 Proof.
-  intros HF. destruct F as [g n t]. cbn in HF. subst n.
+  intros HF. destruct F as [g n t rg rv tc]. cbn in HF. subst n.
   eexists _, _, _. split; [vm_compute; reflexivity|]. vm_compute. auto.
 Qed.
 
@@ -1024,6 +1268,49 @@ Definition keq_equiv (keq : pyval -> pyval -> bool) : Prop :=
 Lemma pyval_eqb_equiv : keq_equiv pyval_eqb.
 Proof. split; [exact pyval_eqb_refl|split; [exact pyval_eqb_sym|exact pyval_eqb_trans]]. Qed.
 
-Lemma undecodable_dropped upper lower fso keq F pr P now h s dg e : load P dg = Raise e ->
-  work_step upper lower fso keq F pr P now h s dg = Some (Next s [] None).
+Lemma undecodable_dropped upper lower fso keq enc F pr P now h s dg e : load P dg = Raise e ->
+  work_step upper lower fso keq enc F pr P now h s dg = Some (Next s [] None).
 Proof. intros E. unfold work_step, decode. now rewrite E. Qed.
+
+(* ---------- witnesses on the extracted instance: reply encoding, lazy expiry ---------- *)
+(* a concrete [enc]: nesting below a limit (the interpreter's recursion limit seen from _work) *)
+Lemma shallow_tuple_ok L : enc_tuple_ok (shallow (S (S L))).
+Proof.
+  intros l. cbn [shallow]. induction l as [|x r IH]; cbn [forallb]; auto.
+  rewrite IH. cbn [shallow forallb]. now rewrite andb_true_r.
+Qed.
+
+Definition deep3 : pyval := PTuple [PTuple [PTuple [PInt 0]]].
+Definition register_deep : pyval :=
+  PTuple [PStr RPYC; PStr (T "REGISTER"); PTuple [PTuple [PStr (T "deep")]; deep3]].
+Definition query_deep : pyval := PTuple [PStr RPYC; PStr (T "QUERY"); PTuple [PStr (T "deep")]].
+
+(* register is acknowledged; the next query for that name ends the loop (F: reply not guarded),
+   or is never answered (reply guarded, no validation), or the register is refused (validation) *)
+Lemma reply_dies_witness F : reply_guarded F = false -> register_validates F = false ->
+  exists s1 m1, work_val ascii_upper ascii_lower fso_id pyval_eqb (shallow 5) F 240 1000 h1 [] register_deep = Next s1 m1 (Some OKv)
+  /\ work_val ascii_upper ascii_lower fso_id pyval_eqb (shallow 5) F 240 1000 h1 s1 query_deep = Dead OtherError.
+Proof.
+  intros G V. destruct F as [g n t rg rv tc]. cbn in G, V. subst rg rv.
+  eexists _, _. split; vm_compute; reflexivity.
+Qed.
+Lemma reply_lost_witness F : reply_guarded F = true -> register_validates F = false ->
+  exists s1 m1, work_val ascii_upper ascii_lower fso_id pyval_eqb (shallow 5) F 240 1000 h1 [] register_deep = Next s1 m1 (Some OKv)
+  /\ work_val ascii_upper ascii_lower fso_id pyval_eqb (shallow 5) F 240 1000 h1 s1 query_deep = Next s1 [] None.
+Proof.
+  intros G V. destruct F as [g n t rg rv tc]. cbn in G, V. subst rg rv.
+  eexists _, _. split; vm_compute; reflexivity.
+Qed.
+Lemma register_refused_witness F : register_validates F = true ->
+  work_val ascii_upper ascii_lower fso_id pyval_eqb (shallow 5) F 240 1000 h1 [] register_deep = Next [] [] None.
+Proof. intros V. destruct F as [g n t rg rv tc]. cbn in V. subst rv. vm_compute. reflexivity. Qed.
+
+(* expiry is noticed only by the next query for that name: at 1010 the registration of 1000 is no longer
+   fresh (interval 5) but still counted present, and its re-registration at 1011 notifies nothing *)
+Definition lazy_history : list event := [(1010, h1, RNone); (1000, h1, RRegister [T "FOO"] (PInt 1))].
+Lemma lazy_expiry_witness F :
+  mono lazy_history
+  /\ live pyval_eqb lazy_history (T "FOO") (h1, PInt 1) = Some 1000 /\ stale_at 5 lazy_history 1000
+  /\ member pyval_eqb (T "FOO") (h1, PInt 1) (state_after pyval_eqb F 5 lazy_history) = true
+  /\ notes_of (exec pyval_eqb F 5 1011 h1 (RRegister [T "FOO"] (PInt 1)) (state_after pyval_eqb F 5 lazy_history)) = [].
+Proof. repeat split; try (cbn; lia); try exact I; vm_compute; reflexivity. Qed.
